@@ -62,6 +62,21 @@ CLAIMED = {
                 ref='DESIGN.md section 6 C19',
                 note='Only the pinned binary exists: the old binary halting at the upgrade height is emulated (upgrade-info.json written by the harness). Earlier upgrades are covered by the static part only. '
                      'NoStoreThen = {vesting, genutil, crisis} is a trusted constant.'),
+    'C09': dict(tech='TLA+ model checking (TLC) of Replicas.tla enumerating all noise schedules + trace validation (ReplicasTrace.tla) of two real replicas, one in a separate GOMAXPROCS=1 process',
+                text='In the specification CheckTx/Simulate/Query/clean-restart noise leaves the replicated state untouched by construction (that IS the property); TLC enumerates every schedule of noise '
+                     '(which, where, how often). The deciding step is the binding: for each job two different schedules are executed on two independently constructed real application instances - '
+                     'replica B in another OS process started later with GOMAXPROCS=1 - over TLC-simulated block histories in which an accepted transaction is left out and only checked/simulated '
+                     '(alone and merged with its successors); ReplicasTrace.tla compares app hash, per-transaction code/data/gas/events, EndBlock events, store digest and ABCI query answers at every height.',
+                ref='DESIGN.md section 6 C09',
+                note='Hardware parallelism is varied only through GOMAXPROCS and process identity; other CPU architectures are out of reach. Quick tier samples the enumerated schedules (thorough uses thousands).'),
+    'C20': dict(tech='TLA+ model checking (TLC): KeyStoreLocks.tla on lock programs measured from the real key store (deadlocks replayed with scheduler gates), Snapshot.tla + SnapshotTrace.tla on concurrent real runs; go -race as auxiliary detector',
+                text='Key store: hooks (build tag verif) report each mutex acquisition; the harness measures the lock program of every public operation path, TLC explores all interleavings of 3 '
+                     'concurrent calls under Go RWMutex semantics (writer preference); a model deadlock is replayed on the real key store with gates and only a confirmed hang is a violation. '
+                     'Snapshot reads: Snapshot.tla proves the interval rule for a versioned store; one executor + 8 reader goroutines (gRPC query path, current and historical heights) + mempool noise run '
+                     'on the real app, events ordered by an atomic sequence number, and SnapshotTrace.tla checks every finished query (served height in the allowed interval, answer equal to the committed '
+                     'digest of that height, equal answers for equal heights). Data races cannot be expressed in TLA+: the thorough tier runs the same schedules and a ValidateBasic/GetSignBytes sweep under -race.',
+                ref='DESIGN.md section 6 C20',
+                note='The data-race clause is decided by the Go race detector (auxiliary, thorough tier only), not by the specification. Consensus/mempool ABCI calls are serialised like the CometBFT local client.'),
 }
 
 PENDING_REASON = 'check not built yet in this round of work (planned in DESIGN.md section 11); no claim is made until its machinery exists'
@@ -105,7 +120,7 @@ def main():
 
 
 NA = {}
-HOOK_COMMITS = []
+HOOK_COMMITS = ['793c3992']
 
 if __name__ == '__main__':
     main()
